@@ -85,6 +85,16 @@ def build(defn, k):
     return ident, cls, entry, slot_names, pos_names, tag_syms, param_syms
 
 
+def register(ns, cls, k):
+    """add_commands takes 'a single Command Object or list of Command Objects', i.e. any iterable: every call shape in turn"""
+    class NotACommand:  # does not end in "Command": skipped by add_commands, must not disturb its neighbours
+        pass
+
+    shapes = [lambda: cls, lambda: [cls], lambda: (cls,), lambda: (c for c in [cls]), lambda: iter([NotACommand, cls]), lambda: {cls},
+              lambda: filter(None, [cls]), lambda: [NotACommand, cls]]
+    ns.commands.add_commands(shapes[k % len(shapes)]())
+
+
 def def_task(t):
     k, defn, depth, seed = t
     ns = seams.load()
@@ -93,7 +103,7 @@ def def_task(t):
     table = dict(T.COMMANDS)
     table[ident] = entry
     sibling = "zy%d" % k
-    ns.commands.add_commands(cls)
+    register(ns, cls, k)
     try:
         sig = list(tag_syms)
         if tag_syms:
@@ -359,7 +369,7 @@ def replay(payload):
     ident, cls, entry, slot_names, pos_names, tag_syms, param_syms = build(defn, k)
     table = dict(T.COMMANDS)
     table[ident] = entry
-    ns.commands.add_commands(cls)
+    register(ns, cls, k)
     try:
         text = bytes.fromhex(payload["text_hex"])
         case = E.execute((), text=text, want_config=False, commands=(table, T.KNOWN_EXTENSIONS + (EXT,)))
